@@ -1095,4 +1095,112 @@ theorem decodeQuery_of_read (n : Node) (q : Query) (h : readQuery n = some q) : 
       | _ :: _ :: _ :: _ :: _, h => simp at h
   · cases h
 
+-- multiget -------------------------------------------------------------------------------------------------------------------------------
+
+theorem readHref_facts (unescape : String → Option String) (n : Node) (p : String) (h : readHref unescape n = some p) :
+    ∃ q cs, n = .elem q [] cs ∧ q.space = nsDav ∧ q.loc = "href" ∧ unescape (chardata cs) = some p := by
+  unfold readHref at h
+  split at h
+  · rename_i q cs
+    by_cases hc : q.space = nsDav ∧ q.loc = "href" ∧ cs.all isText = true
+    · simp only [hc, and_self, if_true] at h
+      exact ⟨q, cs, rfl, hc.1, hc.2.1, h⟩
+    · simp only [hc, if_false] at h
+      cases h
+  · cases h
+
+theorem hrefs_agree (unescape : String → Option String) (l : List Node) (ps : List String)
+    (h : l.mapM (readHref unescape) = some ps) :
+    l.filter (·.isElem nsDav "href") = l ∧ l.filter (·.isElem nsDav "prop") = [] ∧ l.mapM (decHref unescape) = .ok ps := by
+  induction l generalizing ps with
+  | nil => simp at h; subst h; exact ⟨rfl, rfl, rfl⟩
+  | cons a as ih =>
+    rw [List.mapM_cons] at h
+    cases ha : readHref unescape a with
+    | none => simp [ha] at h
+    | some p =>
+      cases has : as.mapM (readHref unescape) with
+      | none => simp [ha, has] at h
+      | some ps' =>
+        simp only [ha, has, bind, Option.bind, pure, Option.some.injEq] at h
+        subst h
+        obtain ⟨q, cs, rfl, hsp, hloc, hu⟩ := readHref_facts unescape a p ha
+        obtain ⟨i1, i2, i3⟩ := ih ps' has
+        have hi : (Node.elem q [] cs).isElem nsDav "href" = true := by simp [Node.isElem, hsp, hloc]
+        have hn : (Node.elem q [] cs).isElem nsDav "prop" = false := by simp [Node.isElem, hsp, hloc]
+        refine ⟨by simp [List.filter_cons, hi, i1], by simp [List.filter_cons, hn, i2], ?_⟩
+        rw [List.mapM_cons]
+        simp only [decHref, hu, i3, bind, Except.bind, pure, Except.pure]
+
+theorem decPropReq_of (children : List Node) (d : DataReq) (h : DataPart children d) : decPropReq children = .ok d := by
+  unfold decPropReq
+  rcases h with ⟨h1, rfl⟩ | ⟨q, a, pc, h1, h2⟩
+  · rw [h1]
+  · rw [h1]; exact h2
+
+theorem isPropReq_facts (a : Node) (h : isPropReq a = true) : a.isElem nsDav "href" = false := by
+  cases a with
+  | text s => simp [isPropReq, tag] at h
+  | comment s => simp [isPropReq, tag] at h
+  | elem q at' k =>
+    simp only [Node.isElem]
+    by_cases hd : q.space = nsDav
+    · by_cases hl : q.loc = "href"
+      · exfalso
+        have hne : ¬ (nsDav = nsCal) := by decide
+        simp [isPropReq, tag, hd, hl, hne] at h
+      · simp [hl]
+    · simp [hd]
+
+/-- every calendar-multiget document the strict reader accepts reaches the backend as the request it denotes -/
+theorem decodeMultiGet_of_read (unescape : String → Option String) (n : Node) (m : MultiGet)
+    (h : readMultiGet unescape n = some m) : decodeMultiGet unescape n = .ok m := by
+  unfold readMultiGet at h
+  split at h
+  · rename_i name cs
+    split at h
+    · cases h
+    · rename_i hc
+      simp only [Bool.not_eq_true, Bool.not_eq_false'] at hc
+      unfold decodeMultiGet
+      simp only [hc, Bool.not_true, Bool.false_eq_true, if_false]
+      match cs, h with
+      | [], h => simp at h
+      | a :: rest, h =>
+        simp only at h
+        by_cases hp : isPropReq a = true
+        · simp only [hp, if_true] at h
+          by_cases he : rest.isEmpty = true
+          · simp [he] at h
+          · simp only [he, Bool.false_eq_true, if_false] at h
+            cases hd : readPropReq a with
+            | none => simp [hd, bind, Option.bind] at h
+            | some d =>
+              cases hh : rest.mapM (readHref unescape) with
+              | none => simp [hd, hh, bind, Option.bind] at h
+              | some hs =>
+                simp [hd, hh, bind, Option.bind, pure] at h
+                subst h
+                obtain ⟨hdp, _⟩ := propReq_of_read a d hd
+                obtain ⟨i1, i2, i3⟩ := hrefs_agree unescape rest hs hh
+                have hdata : DataPart (a :: rest) d := by
+                  have e : (a :: rest).filter (·.isElem nsDav "prop") = [a].filter (·.isElem nsDav "prop") := by
+                    have : a :: rest = [a] ++ rest := rfl
+                    rw [this, List.filter_append, i2, List.append_nil]
+                  unfold DataPart at hdp ⊢
+                  rw [e]; exact hdp
+                have hfil : (a :: rest).filter (·.isElem nsDav "href") = rest := by
+                  simp [List.filter_cons, isPropReq_facts a hp, i1]
+                simp only [hfil, i3, decPropReq_of _ d hdata, bind, Except.bind, pure, Except.pure]
+        · simp only [hp, Bool.false_eq_true, if_false] at h
+          cases hh : (a :: rest).mapM (readHref unescape) with
+          | none => simp [hh, bind, Option.bind] at h
+          | some hs =>
+            simp [hh, bind, Option.bind, pure] at h
+            subst h
+            obtain ⟨i1, i2, i3⟩ := hrefs_agree unescape (a :: rest) hs hh
+            have hdata : DataPart (a :: rest) zeroReq := Or.inl ⟨i2, rfl⟩
+            simp only [i1, i3, decPropReq_of _ _ hdata, bind, Except.bind, pure, Except.pure]
+  · cases h
+
 end GoWebdav.Lemmas.CaldavAgree
